@@ -37,7 +37,7 @@ impl<'s, 'a: 's> Cursor<'a> {
 
     pub fn window(&mut self, size: usize) -> Result<()> {
         if self.orig.is_none() {
-            if self.len() >= size {
+            if self.pos <= self.capacity() && self.len() >= size {
                 self.orig = Some(self.buf);
                 self.buf = unsafe { self.buf.get_unchecked(..self.pos + size) };
                 Ok(())
@@ -126,7 +126,7 @@ impl<'s, 'a: 's> Cursor<'a> {
     }
 
     pub fn slice(&'s mut self, size: usize) -> Result<&'a [u8]> {
-        if self.len() >= size {
+        if self.pos <= self.capacity() && self.len() >= size {
             let pos = self.pos;
             self.pos += size;
             Ok(unsafe { self.buf.get_unchecked(pos..pos + size) })
